@@ -96,10 +96,16 @@ func c10Endpoints(run *evid.Run, evals, nontrivial *int, mu *sync.Mutex) {
 		d := open
 		d.Endpoints = cl
 		tok := d.Mint()
-		for _, hdr := range []string{"Authorization", "x-piko-authorization"} {
+		for _, hdr := range []string{"Authorization", "x-piko-authorization", "Authorization+forwarded"} {
 			for _, a := range addrs {
-				p := c10Probe{Kind: "proxy", Claims: cl, Addr: a}
-				res := e4.Do(nd.ProxyAddr(), e4.Addressing{Mode: a.Mode, Endpoint: a.Endpoint, Other: a.Other, Token: "Bearer " + tok, TokenHdr: hdr})
+				p := c10Probe{Kind: "proxy", Claims: cl, Addr: a, Header: hdr}
+				ad := e4.Addressing{Mode: a.Mode, Endpoint: a.Endpoint, Other: a.Other, Token: "Bearer " + tok, TokenHdr: hdr}
+				if hdr == "Authorization+forwarded" {
+					// any client can set the inter-node marker: it must not buy anything
+					ad.TokenHdr = "Authorization"
+					ad.Forward = true
+				}
+				res := e4.Do(nd.ProxyAddr(), ad)
 				want := permitted(cl, a.Endpoint)
 				count(!want || a.Mode == "both", p)
 				ok := res.Status == 200 || res.Status == 101
